@@ -506,6 +506,9 @@ func c13(c *core.Ctx) {
 		}
 	})
 
+	c.Clause("C13.5", "round length and rotation are computed over one list: GetDeputiesCount (the number of slots in a round), GetMinerDistance and GetDeputyByDistance (who owns a slot) all answer from GetDeputiesByHeight(height, true), the term's node list cut to DeputyCount (the rule of C03.6, evaluated here as well)")
+	c.Run("one-deputy-set", func() { oneDeputySet(c) })
+
 	c.NotDecidedf("slot arithmetic is NOT decided: uniqueness of the in-turn deputy per instant, rotation by rank (GetDeputyByDistance), the modulo/window computation in GetCorrectMiner, that GetNextMineWindow is the earliest unfinished slot and agrees with GetCorrectMiner at window boundaries — these quantify over integers and deputy tables")
 	c.NotDecidedf("that the miner loop wakes up inside its own window (timers, wall clock), and the one-second tolerance of verifyTime")
 	c.NotDecidedf("writes to the header through packages outside the scanned scope (storage, RLP reflection, logging) — they are handed values or decode into fresh objects; stated as trusted base, not decided")
